@@ -354,8 +354,8 @@ class Tensor:
         return _pyint(x)
 
     # ---- no-op / trivial
-    def contiguous(self, *a, **k): return self
-    def is_contiguous(self, *a, **k): return True
+    def contiguous(self, *a, **k): return contiguous(self)
+    def is_contiguous(self, *a, **k): return bool(self._a.flags['C_CONTIGUOUS'])
     def cpu(self): return self
     def cuda(self, *a, **k): return self
     def requires_grad_(self, flag=True):
@@ -512,6 +512,11 @@ def _detach(x): return _cut(x)
 _detach.__name__ = 'detach'
 @api
 def _clone(x): return _mk(x._a.copy(), x._k)
+@api
+def contiguous(x, *a, **k):
+    """the tensor itself when it is dense in memory, otherwise a dense COPY (views made by transpose / permute / expand / strided slices
+    share the storage of their base: numpy's flags are torch's is_contiguous for these layouts)"""
+    return x if x._a.flags['C_CONTIGUOUS'] else _mk(np.ascontiguousarray(x._a), x._k)
 _clone.__name__ = 'clone'
 def clone(x, **k): return _clone(x)
 def detach(x): return _detach(x)
